@@ -32,8 +32,8 @@ import struct
 
 __all__ = [
     "AES", "DES", "DES3", "Blowfish", "EksBlowfish", "CAST128", "RC2", "RC4",
-    "salsa20_block", "salsa20_xor", "hsalsa20",
-    "chacha20_block", "chacha20_xor", "hchacha20",
+    "salsa20_block", "salsa20_xor",
+    "chacha20_block", "chacha20_xor", "chacha20_params", "hchacha20",
     "self_test",
 ]
 
@@ -646,7 +646,9 @@ class EksBlowfish(_BlowfishState):
     how the pseudo-code in the USENIX'99 paper is printed.  (The keyword has
     the same meaning as `invert` in Crypto.Cipher._EKSBlowfish.)
 
-    key: 0..72 bytes (bcrypt feeds password||NUL, truncated to 72 bytes);
+    key: 0..72 bytes (bcrypt feeds password||NUL, truncated to 72 bytes; an
+    empty key XORs nothing into P -- note that the library under test documents
+    the empty key as legal but its C code never returns for it);
     salt: 16 bytes; cost: 0..31.  The resulting object is a Blowfish ECB
     block cipher (encrypt_block / decrypt_block)."""
 
@@ -1297,13 +1299,6 @@ def salsa20_block(key, nonce, counter):
     return struct.pack("<16I", *[(a + b) & _M32 for a, b in zip(inp, out)])
 
 
-def hsalsa20(key32, nonce16):
-    """HSalsa20 (XSalsa20 paper); provided for completeness."""
-    inp = _salsa20_input(key32, bytes(nonce16))
-    z = _salsa20_rounds(inp)
-    return struct.pack("<8I", z[0], z[5], z[10], z[15], z[6], z[7], z[8], z[9])
-
-
 def _stream_xor(block_fn, data, offset_bytes, max_blocks):
     data = bytes(data)
     if offset_bytes < 0:
@@ -1561,6 +1556,23 @@ def self_test():
     # (bcrypt known answers are checked by the bcrypt model built on top.)
     e0 = EksBlowfish(b"abcd", bytes(16), 0)
     assert e0.decrypt_block(e0.encrypt_block(b"OrpheanB")) == b"OrpheanB"
+    # bcrypt known answer (Openwall crypt_blowfish / OpenBSD regression vector):
+    #   bcrypt("U*U", "$2a$05$CCCCCCCCCCCCCCCCCCCCC.") ends in E5YPO9kmyuRGyh0XouQYb4YMJKvyOeW
+    b64 = "./ABCDEFGHIJKLMNOPQRSTUVWXYZabcdefghijklmnopqrstuvwxyz0123456789"
+
+    def b64dec(txt, nbytes):
+        v = 0
+        for ch in txt:
+            v = (v << 6) | b64.index(ch)
+        extra = 6 * len(txt) - 8 * nbytes
+        return (v >> extra).to_bytes(nbytes, "big")
+
+    salt = b64dec("CCCCCCCCCCCCCCCCCCCCC.", 16)
+    eks = EksBlowfish(b"U*U\x00", salt, 5)
+    ctext = b"OrpheanBeholderScryDoubt"
+    for _ in range(64):
+        ctext = b"".join(eks.encrypt_block(ctext[i:i + 8]) for i in (0, 8, 16))
+    assert ctext[:23] == b64dec("E5YPO9kmyuRGyh0XouQYb4YMJKvyOeW", 23), "EksBlowfish / bcrypt KAT"
 
     # ---- CAST-128: RFC 2144 Appendix B.1 -----------------------------------
     for k, c in (("0123456712345678234567893456789a", "238b4fe5847e44b2"),
